@@ -526,3 +526,127 @@ def evaluate_loop_def(relpath, lean_name="evaluate_one"):
             "map, re-anchored with `_shift`; the square root is a parameter, `none` = `+inf` -/\n"
             f"def {lean_name} ({a.fn} : Int → Int → Rat) ({a.n} {a.m} : Int) (sqrt : Rat → Rat) (peak0 peak1 crop_size : Int) : "
             f"(Int × Int) × (Rat × Rat) × Rat × Option Rat :=\n{body}\n")
+
+
+# ----------------------------------------------------------------------------------------------------------------
+# per-cell store kernels:  for i: for y: for x: out[i, y, x] = ...   (crop_disks_from_frame)
+# ----------------------------------------------------------------------------------------------------------------
+
+class _Inline(ast.NodeTransformer):
+    """inline calls of local single-return helper functions (closures over the enclosing arguments)"""
+
+    def __init__(self, helpers):
+        self.helpers = helpers
+
+    def visit_Call(self, node):
+        self.generic_visit(node)
+        if isinstance(node.func, ast.Name) and node.func.id in self.helpers and not node.keywords:
+            params, body = self.helpers[node.func.id]
+            if len(params) != len(node.args):
+                raise Untranslatable(f"helper {node.func.id}: arity")
+            mapping = dict(zip(params, node.args))
+
+            class Sub(ast.NodeTransformer):
+                def visit_Name(self, n):
+                    return _copy(mapping[n.id]) if n.id in mapping else n
+            return Sub().visit(_copy(body))
+        return node
+
+
+def cell_kernel_def(relpath, qualname, lean_name, doc):
+    """`out[i, y, x] = (frame[a, b] | 0)` chosen by a condition on integers, for one peak `(peak0, peak1)`:
+    -> def lean_name {α} [OfNat α 0] (frame) (fy fx crop_size peak0 peak1 y x : Int) : α"""
+    fn = find_def(relpath, qualname)
+    args = [a.arg for a in fn.args.args]
+    if len(args) != 4:
+        raise Untranslatable(f"{qualname}: arguments {args}")
+    peaks_n, frame_n, crop_n, out_n = args
+    helpers = {}
+    body = []
+    for s in stmts_of(fn):
+        if isinstance(s, ast.FunctionDef):
+            inner = stmts_of(s)
+            if len(inner) != 1 or not isinstance(inner[0], ast.Return) or s.args.defaults or s.args.kwonlyargs:
+                raise Untranslatable(f"helper {s.name} is not a single return")
+            helpers[s.name] = ([a.arg for a in s.args.args], inner[0].value)
+        else:
+            body.append(s)
+    inl = _Inline(helpers)
+    env = Env(vars={crop_n: ("crop_size", INT)})
+    for nme in ("fy", "fx", "crop_size", "peak0", "peak1", "y", "x"):
+        env.counter[nme] = 1
+    lines = []
+
+    def let(name, node):
+        txt, t = tr(inl.visit(_copy(node)), env)
+        ln = env.fresh(name)
+        lines.append(f"let {ln} : {t} := {txt}")
+        env.vars[name] = (ln, t)
+
+    # prologue: `a, b = frame.shape`, then the loop over the peaks
+    *pro, loop_i = body
+    for s in pro:
+        if isinstance(s, ast.Assign) and len(s.targets) == 1 and isinstance(s.targets[0], ast.Tuple) \
+                and ast.unparse(s.value) == f"{frame_n}.shape" and len(s.targets[0].elts) == 2:
+            env.vars[s.targets[0].elts[0].id] = ("fy", INT)
+            env.vars[s.targets[0].elts[1].id] = ("fx", INT)
+        else:
+            raise Untranslatable(f"{qualname}: statement before the loops: {ast.unparse(s)[:50]}")
+    env.subst[f"{frame_n}.shape[0]"] = ("fy", INT)
+    env.subst[f"{frame_n}.shape[1]"] = ("fx", INT)
+    if not (isinstance(loop_i, ast.For) and isinstance(loop_i.target, ast.Name)
+            and ast.unparse(loop_i.iter) == f"range(len({peaks_n}))"):
+        raise Untranslatable(f"{qualname}: outer loop")
+    i = loop_i.target.id
+    env.subst[f"{peaks_n}[{i}][0]"] = ("peak0", INT)
+    env.subst[f"{peaks_n}[{i}][1]"] = ("peak1", INT)
+
+    def descend(stmts, var, expected_iter):
+        *pre, loop = stmts
+        for s in pre:
+            if isinstance(s, ast.Assign) and len(s.targets) == 1 and isinstance(s.targets[0], ast.Name):
+                if ast.unparse(s.value) == f"{peaks_n}[{i}]":      # alias of the current peak
+                    env.subst[f"{s.targets[0].id}[0]"] = ("peak0", INT)
+                    env.subst[f"{s.targets[0].id}[1]"] = ("peak1", INT)
+                else:
+                    let(s.targets[0].id, s.value)
+            else:
+                raise Untranslatable(f"{qualname}: statement {ast.unparse(s)[:50]}")
+        if not (isinstance(loop, ast.For) and isinstance(loop.target, ast.Name) and ast.unparse(loop.iter) == expected_iter):
+            raise Untranslatable(f"{qualname}: loop `for {ast.unparse(loop.target)} in {ast.unparse(loop.iter)}` "
+                                 f"is not over {expected_iter}")
+        env.vars[loop.target.id] = (var, INT)
+        return loop.body
+
+    b_y = descend(loop_i.body, "y", f"range({out_n}.shape[1])")
+    b_x = descend(b_y, "x", f"range({out_n}.shape[2])")
+    *pre, final = b_x
+    for s in pre:
+        if isinstance(s, ast.Assign) and len(s.targets) == 1 and isinstance(s.targets[0], ast.Name):
+            let(s.targets[0].id, s.value)
+        else:
+            raise Untranslatable(f"{qualname}: statement {ast.unparse(s)[:50]}")
+    if not (isinstance(final, ast.If) and len(final.body) == 1 and len(final.orelse) == 1):
+        raise Untranslatable(f"{qualname}: the cell is not written by an if/else")
+    cond = tr_prop(inl.visit(_copy(final.test)), env)
+    yv = [k for k, v in env.vars.items() if v == ("y", INT)][0]
+    xv = [k for k, v in env.vars.items() if v == ("x", INT)][0]
+
+    def value(st):
+        if not (isinstance(st, ast.Assign) and ast.unparse(st.targets[0]) == f"{out_n}[{i}, {yv}, {xv}]"):
+            raise Untranslatable(f"{qualname}: store `{ast.unparse(st)[:60]}`")
+        v = st.value
+        if isinstance(v, ast.Constant) and v.value == 0:
+            return "(0 : α)"
+        if isinstance(v, ast.Subscript) and ast.unparse(v.value) == frame_n and isinstance(v.slice, ast.Tuple) \
+                and len(v.slice.elts) == 2:
+            a, ta = tr(inl.visit(_copy(v.slice.elts[0])), env)
+            b, tb = tr(inl.visit(_copy(v.slice.elts[1])), env)
+            if ta != INT or tb != INT:
+                raise Untranslatable("frame index type")
+            return f"frame {a} {b}"
+        raise Untranslatable(f"{qualname}: stored value `{ast.unparse(v)}`")
+    ret = f"if {cond} then {value(final.body[0])} else {value(final.orelse[0])}"
+    bodytxt = "\n".join("  " + ln for ln in lines + [ret])
+    return (f"/-- {doc} -/\ndef {lean_name} {{α : Type}} [OfNat α 0] (frame : Int → Int → α) "
+            f"(fy fx crop_size peak0 peak1 y x : Int) : α :=\n{bodytxt}\n")
